@@ -476,8 +476,9 @@ register("C15", streams=[Q("filter", pred="has", apis=["find_matches"], src=Fals
 register("C06", streams=[Q("all", apis=ALL_APIS, src=None, share=1, guarded=0.06)], n_quick=1500, n_thorough=60000,
          observables=["results_exc"], oracles=[oracles.snapshot_oracle, oracles.reuse_oracle, oracles.interleave_oracle, oracles.interrupted_use_oracle], generated=["Stores"],
          rule="read-only calls (find / find_matches / get_match / get, traced and untraced, from a document or a Match, any has-family predicates) repeated 2-5 times on the same document and the same path object: deep snapshot (container identities, key order, list contents) before = after every call, the path renders like a never-evaluated twin, later evaluations select what the first did; plus the store table regenerated from the source")
-register("C16", streams=[Q("all", apis=ALL_APIS, src=None, share=1)], n_quick=1500, n_thorough=60000,
-         observables=["results_exc"], oracles=[oracles.documented_oracle, oracles.slice_mutation_oracle, oracles.deep_oracle, oracles.resume_after_loop_oracle, oracles.dash_root_oracle, oracles.live_edit_oracle],
+register("C16", streams=[Q("all", apis=ALL_APIS, src=None, share=1, resume=0.4),
+                         Q("filter", pred="mixed", apis=["find", "find_matches"], src=None, share=1, resume=1.0, untraced=0.5)], n_quick=3000, n_thorough=60000,
+         observables=["results_exc", "documented"], oracles=[oracles.documented_oracle, oracles.slice_mutation_oracle, oracles.deep_oracle, oracles.resume_after_loop_oracle, oracles.dash_root_oracle, oracles.live_edit_oracle],
          extra=[families.MutateFamily("set", 400, 15000, "error classes of set_ / set_match"),
                 families.MutateFamily("pop", 400, 15000, "error classes of pop / pop_match"),
                 families.BuilderFamily("dag", 400, 15000, "PathSyntaxError at construction for unsupported indices")],
